@@ -13,8 +13,66 @@ from gwcs import wcs as gw
 
 PROP = "C05"
 LEAN_MODULE = "GwcsProofs.C05"
-SOURCES = ["GwcsModel/Solver.lean", "GwcsProofs/C05.lean"]
+SOURCES = ["GwcsModel/Solver.lean", "GwcsModel/Wrap.lean", "GwcsProofs/C05.lean", "GwcsProofs/C05b.lean"]
+
+
+def prepare(tier):
+    """source tie of GwcsModel/Wrap.lean: every `np.mod` in the solver (gwcs/wcs.py, WCS._vectorized_fixed_point) must be a wrap of the
+    modelled form  mod(E +- H, P) - H  with P = 2 H, and the pixel-scale estimate must not use a raw difference of two longitudes"""
+    import ast
+    src = open(os.path.join(C.REPO, "gwcs", "wcs.py")).read()
+    fn = None
+    for node in ast.walk(ast.parse(src)):
+        if isinstance(node, ast.FunctionDef) and node.name == "_vectorized_fixed_point":
+            fn = node
+    if fn is None:
+        return False, "gwcs/wcs.py: WCS._vectorized_fixed_point not found"
+
+    def half(e):
+        """the half-period an expression denotes: 180.0 / np.pi -> ('deg'|'rad'); 360.0 / 2*np.pi -> full period"""
+        t = ast.unparse(e).replace(" ", "")
+        return {"180.0": ("deg", 1), "180": ("deg", 1), "360.0": ("deg", 2), "360": ("deg", 2), "np.pi": ("rad", 1),
+                "2.0*np.pi": ("rad", 2), "2*np.pi": ("rad", 2), "np.pi*2": ("rad", 2), "np.pi*2.0": ("rad", 2)}.get(t)
+    parents = {}
+    for n in ast.walk(fn):
+        for c in ast.iter_child_nodes(n):
+            parents[c] = n
+    sites, bad = [], []
+    for n in ast.walk(fn):
+        if isinstance(n, ast.Call) and ast.unparse(n.func) == "np.mod":
+            ok = False
+            par = parents.get(n)
+            if len(n.args) == 2 and isinstance(n.args[0], ast.BinOp) and isinstance(n.args[0].op, (ast.Add, ast.Sub)) and \
+                    isinstance(par, ast.BinOp) and isinstance(par.op, ast.Sub) and par.left is n:
+                h_in, per, h_out = half(n.args[0].right), half(n.args[1]), half(par.right)
+                if h_in and per and h_out and h_in[0] == per[0] == h_out[0] and h_in[1] == 1 and per[1] == 2 and h_out[1] == 1:
+                    ok = True
+                    sites.append("%s:%d %s" % (per[0], n.lineno, "plus" if isinstance(n.args[0].op, ast.Add) else "minus"))
+            if not ok:
+                bad.append("line %d: %s" % (n.lineno, ast.unparse(parents.get(n, n))[:100]))
+    # the area of the pixel-scale estimate: differences of the sampled longitudes l1..l4 only inside a wrap
+    import re as _re
+    for n in ast.walk(fn):
+        if isinstance(n, ast.BinOp) and isinstance(n.op, ast.Sub) and isinstance(n.left, ast.Name) and isinstance(n.right, ast.Name) \
+                and _re.fullmatch(r"l\d", n.left.id) and _re.fullmatch(r"l\d", n.right.id):
+            q, inside = n, False
+            while q in parents:
+                q = parents[q]
+                if isinstance(q, ast.Call) and ast.unparse(q.func) == "np.mod":
+                    inside = True
+            if not inside:
+                bad.append("line %d: raw longitude difference %s" % (n.lineno, ast.unparse(n)))
+    if bad or len(sites) < 3:
+        return False, "the solver's angle wraps are not of the modelled form mod(E +- H, 2H) - H: %s (recognised: %s)" % (bad, sites)
+    return True, "solver wraps recognised in the source: " + ", ".join(sites)
+
+
 THEOREMS = [
+    "Gwcs.Wrap.wrap_range",
+    "Gwcs.Wrap.wrap_periodic",
+    "Gwcs.Wrap.wrap_id",
+    "Gwcs.Wrap.wrap_recovers",
+    "Gwcs.Wrap.wrapMinus_eq",
     "Gwcs.Sol.inv_enterAdaptive",
     "Gwcs.Sol.inv_switchToAdaptive",
     "Gwcs.Sol.inv_adaptiveStep",
